@@ -20,6 +20,7 @@ import (
 	metav1 "k8s.io/apimachinery/pkg/apis/meta/v1"
 	"k8s.io/apimachinery/pkg/types"
 	"k8s.io/apimachinery/pkg/util/sets"
+	"k8s.io/client-go/tools/record"
 
 	"volcano.sh/apis/pkg/apis/scheduling"
 	"volcano.sh/volcano/pkg/scheduler/api"
@@ -83,6 +84,8 @@ func runAliasCase(in []int64) []int64 {
 	snap.NodeList = append(snap.NodeList, ni.Name)
 	if reclaimMock == nil {
 		reclaimMock = cache.NewDefaultMockSchedulerCache("verif")
+		// the default FakeRecorder has a 100-event channel nobody reads (see votes.go)
+		reclaimMock.Recorder = &record.FakeRecorder{}
 	}
 	cch := &sched.ScriptedCache{SchedulerCache: reclaimMock, Snap: snap, RefuseBind: map[int64]bool{}, RefuseEvict: map[int64]bool{}}
 	var plug framework.Plugin
